@@ -30,6 +30,10 @@ pub enum QTok {
     Abs,
     Lt,
     Eq,
+    Le,
+    Gt,
+    Ge,
+    Ne,
     /// Quantity -> Time / DimensionlessInteger via try_from
     ToTime,
     ToInt,
@@ -257,16 +261,26 @@ pub fn run_quantity(prog: &[QTok], out: &mut Vec<String>) {
                     });
                 }
             }
-            QTok::Lt | QTok::Eq => {
+            QTok::Lt | QTok::Eq | QTok::Le | QTok::Gt | QTok::Ge | QTok::Ne => {
                 if st.len() >= 2 {
                     let (b, a) = (st.pop().unwrap(), st.pop().unwrap());
-                    let r = match (a, b, *tok) {
-                        (V::Q(x), V::Q(y), QTok::Lt) => Some(x < y),
-                        (V::Q(x), V::Q(y), _) => Some(x == y),
-                        (V::T(x), V::T(y), QTok::Lt) => Some(x < y),
-                        (V::T(x), V::T(y), _) => Some(x == y),
-                        (V::D(x), V::D(y), QTok::Lt) => Some(x < y),
-                        (V::D(x), V::D(y), _) => Some(x == y),
+                    // the operators themselves (not partial_cmp): each may have its own cfg-gated implementation
+                    macro_rules! cmp {
+                        ($x:expr, $y:expr) => {
+                            Some(match *tok {
+                                QTok::Lt => $x < $y,
+                                QTok::Le => $x <= $y,
+                                QTok::Gt => $x > $y,
+                                QTok::Ge => $x >= $y,
+                                QTok::Ne => $x != $y,
+                                _ => $x == $y,
+                            })
+                        };
+                    }
+                    let r = match (a, b) {
+                        (V::Q(x), V::Q(y)) => cmp!(x, y),
+                        (V::T(x), V::T(y)) => cmp!(x, y),
+                        (V::D(x), V::D(y)) => cmp!(x, y),
                         _ => None,
                     };
                     out.push(match r {
